@@ -309,8 +309,11 @@ def c13_signature(spec, v):
         for p in W.parties(spec["world"]):
             if p["name"] == f.get("file"):
                 fmt = p["format"]
-        return "fault_not_rejected type=%s%s format=%s" % (f.get("type"), ":" + f["mode"] if f.get("mode") else
-                                                         (":" + f["errno"] if f.get("errno") else ""), fmt)
+        return "fault_not_rejected type=%s%s%s format=%s" % (f.get("type"), ":" + f["mode"] if f.get("mode") else
+                                                           (":" + f["errno"] if f.get("errno") else ""),
+                                                           ":persistent" if f.get("persistent") else "", fmt)
+    if k == "fault_changed_output":
+        return "fault_changed_output type=%s" % v.get("detail", {}).get("fault", {}).get("type")
     if k == "config_fault_ignored":
         return "config_fault_ignored fault=%s" % d.get("fault", {}).get("type")
     return k
